@@ -257,6 +257,21 @@ def r2_token_typing(chk: Check):
     f = tree.func("cli.filter", "RegexExpr.filter")
     used = [src(c.func.value) for c in fn_calls(f.node) if tail(c) in ("match", "search", "fullmatch")]
     chk.require(bool(stored) and used == stored, "cli.filter:RegexExpr.filter:compiled regex", f"RegexExpr.filter matches with {used} but __init__ stores the compiled pattern in {stored}", chk.loc(f.module, f.node))
+    # ... the answer is the match of the variable's value: a missing value never matches, a present value is matched and nothing else decides
+    from ..dataflow import path_traces
+
+    VAL = "self.var.get(<p1>)"
+    for t_ in path_traces(f.node):
+        conds = dict(t_.conds)
+        present = conds.get(VAL)
+        end = t_.end
+        if present is False or conds.get(f"{VAL} is None") is True:
+            okp = end in ("return False", "return None", "return", "fall")
+        else:
+            okp = bool(stored) and any(end in (f"return {st}.{m}({VAL})", f"return bool({st}.{m}({VAL}))", f"return {st}.{m}({VAL}) is not None") for st in stored for m in ("match",))
+            okp = okp and not [c for c in conds if c not in (VAL, f"{VAL} is None")]
+        chk.require(okp, "cli.filter:RegexExpr.filter:decision", f"RegexExpr.filter under {sorted(conds.items())} ends with `{end}`: a job without the tag is rejected, any other job is "
+                    "accepted exactly when the compiled pattern matches the value", chk.loc(f.module, f.node))
     # 4. equality compares the two .get() values
     f = tree.func("cli.filter", "EqExpr.filter")
     rets = [src(x.value) for x in body_walk(f.node) if isinstance(x, ast.Return)]
@@ -374,9 +389,40 @@ def r3_connectives(chk: Check):
                 bad.append(f"operator {'and' if is_and else 'or'}, left={y}, right={x}: {o.end}{' depending on ' + str(unk) if unk else ''}")
     chk.require(not bad, "cli.filter:LogicExpr.filter", f"LogicExpr.filter must be the conjunction of both sides for `and` and the disjunction otherwise; found {bad[:3]}", chk.loc(f.module, f.node))
     s = tree.func("cli.filter", "LogicExpr.summary")
-    t = src(s.node)
-    ok = "v = tokens[1]" in t and "v.x = tokens[0]" in t and "for token in tokens[2:]:" in t and "token.x = v" in t and "v = token" in t
-    chk.require(ok, "cli.filter:LogicExpr.summary", "summary must chain the operators left to right", chk.loc(s.module, s.node))
+    # left-to-right chaining, decided on the flow graph: one term is returned as it is; otherwise the accumulator starts as the first operator
+    # node with the first term on its left, every further operator node takes the accumulator on its left and becomes the accumulator, and
+    # the accumulator is what is returned once the loop is over
+    gs = CFG(s.node)
+    rds = ReachingDefs(gs)
+    prm = s.node.args.args[-1].arg
+    why = []
+    rets = [n for n in gs.live if n.kind == "stmt" and isinstance(n.ast, ast.Return)]
+    single = [n for n in rets if n.ast.value is not None and rds.canon(n.ast.value, n) == f"{prm}[0]"]
+    if not (len(single) == 1 and any((src(t.ast), pol) in ((f"len({prm}) == 1", True), (f"1 == len({prm})", True)) for t, pol in gs.guards(single[0]) if t.kind == "test")):
+        why.append("a single term must be returned unchanged (exactly when there is one token)")
+    multi = [n for n in rets if n not in single]
+    loops_ = [n for n in gs.live if n.kind == "for" and src(n.ast.iter) == f"{prm}[2:]" and isinstance(n.ast.target, ast.Name)]
+    if len(multi) != 1 or len(loops_) != 1 or not isinstance(multi[0].ast.value, ast.Name):
+        why.append("several terms: expected one loop over the operator nodes after the first and one return of the accumulator")
+    else:
+        acc, lp, tok = multi[0].ast.value.id, loops_[0], loops_[0].ast.target.id
+        done = [b for b in gs.live if b.kind == "branch" and b.extra["test"] is lp and b.extra["polarity"] == "done"]
+        if not (done and all(gs.dominates(b, multi[0]) for b in done[:1])) or gs.exit.id in gs.reachable(done[0], avoid=[multi[0]]) if done else True:
+            why.append("the accumulator must be returned on every path once the loop is over")
+        init = [n for n in gs.live if n.kind == "stmt" and isinstance(n.ast, ast.Assign) and src(n.ast.targets[0]) == acc and src(n.ast.value) == f"{prm}[1]" and gs.dominates(n, lp)]
+        left0 = [n for n in gs.live if n.kind == "stmt" and isinstance(n.ast, ast.Assign) and src(n.ast.targets[0]) == f"{acc}.x" and src(n.ast.value) == f"{prm}[0]" and gs.dominates(n, lp)]
+        if not (len(init) == 1 and len(left0) == 1 and gs.dominates(init[0], left0[0])):
+            why.append(f"before the loop: `{acc} = {prm}[1]` then `{acc}.x = {prm}[0]`")
+        body0 = [m for m, l in lp.succ if l == "loop"]
+        link = [n for n in gs.live if n.kind == "stmt" and isinstance(n.ast, ast.Assign) and src(n.ast.targets[0]) == f"{tok}.x" and src(n.ast.value) == acc]
+        step = [n for n in gs.live if n.kind == "stmt" and isinstance(n.ast, ast.Assign) and src(n.ast.targets[0]) == acc and src(n.ast.value) == tok]
+        if not (len(link) == 1 and len(step) == 1 and body0 and gs.dominates(body0[0], link[0]) and gs.dominates(link[0], step[0]) and gs.on_every_path(step, start=body0[0], end=lp)):
+            why.append(f"in the loop: `{tok}.x = {acc}` then `{acc} = {tok}`, on every iteration")
+        others = [n for n in gs.live if n.kind == "stmt" and isinstance(n.ast, ast.Assign) and src(n.ast.targets[0]) in (acc, f"{acc}.x", f"{tok}.x") and n not in init + left0 + link + step
+                  and not any(gs.dominates(n, x) and not gs.dominates(n, multi[0]) for x in single)]
+        if others:
+            why.append(f"unexpected writes {[src(n.ast) for n in others][:2]}")
+    chk.require(not why, "cli.filter:LogicExpr.summary", f"summary must chain the operators left to right: {why}", chk.loc(s.module, s.node))
     env, _ = grammar_env(tree)
     lt = received_tokens(env, "LogicExpr")
     chk.require(all(len(tk) == 2 and tk[0] == "str" for tk in lt) and lt, "cli.filter:LogicExpr tokens", f"LogicExpr receives {sorted(lt)}; expected (operator text, right operand)", chk.loc(s.module, s.node))
